@@ -49,8 +49,8 @@ REFRESH = ('if (isNull OBJ) then {OBJ = "Land_Test" createVehicle [1,2,3]}; if (
 
 CONFIG = 'class CfgTest { num = 1; txt = "t"; arr[] = {1,{2,3},"x"}; class Sub { a = 1; }; class Child : Sub { b = 2; }; }; class CfgEmpty {}; class CfgVehicles { class Land_Test { scope = 2; }; };'
 
-SCALAR = ["0", "-0", "1", "-1", "0.5", "2", "3", "1e10", "-1e10", "2147483648", "-2147483649", "3.4e38", "(1e38*10)", "(-1e38*10)", "(sqrt -1)", "1e-30"]
-SCALAR_Q = ["0", "1", "-1", "0.5", "1e10", "-2147483649", "(1e38*10)", "(sqrt -1)"]
+SCALAR = ["0", "-0", "1", "-1", "0.5", "2", "3", "20", "255", "1e10", "-1e10", "2147483648", "-2147483649", "3.4e38", "(1e38*10)", "(-1e38*10)", "(sqrt -1)", "1e-30"]
+SCALAR_Q = ["0", "1", "-1", "0.5", "1e10", "-1e10", "20", "-2147483649", "3.4e38", "(1e38*10)", "(sqrt -1)"]
 STRING = ['""', '"a"', '"%1"', '"%"', '"%0"', '"%99999999999"', "STR64", '(toString [200,255,1])', '"1"', '"a,b"', '"/sub/../f.sqf"', '"f.sqf"', '"CfgTest"', '"m1"', '"Land_Test"', '"_x"', '"1 +"', '"#define A A\nA"']
 STRING_Q = ['""', '"a"', '"%99999999999"', '"%1"', "STR64", '"f.sqf"', '"1 +"', '"CfgTest"']
 REPS = ["0", '"a"', "[]", "{}", "objNull", "true", "[1,2]", "-1", "OBJ", "1e10"]
